@@ -40,7 +40,8 @@ Core == {"block", "inline", "inlineblock", "floatl", "abs", "table", "td", "flex
 Frag == {"block", "inline", "floatl", "floatr-tall", "abs-far", "fixed", "table", "tr", "td", "td-span", "thead", "tfoot", "flex", "flex-colwrap", "grid", "grid-areas",
          "columns", "colspan-all", "columns-fill", "page-named", "bb-page", "bb-left", "ba-right", "bb-recto", "bi-avoid-tall", "ba-avoid", "orphans",
          "footnote", "footnote-tall", "footnote-disp", "running", "string-set", "tall", "target", "anchor", "big-font", "lh-huge", "pre-long", "break-all",
-         "osc-pages", "pages-text"}
+         "osc-pages", "pages-text", "full-table-coll", "full-table-sep", "full-list", "full-flex", "full-grid", "full-columns", "long-text", "footnotes-many",
+         "floats-many", "abs-in-rel"}
 All == Core \cup Frag \cup
        {"floatr-tall", "abs-far", "fixed", "relative", "tr", "td-span", "caption", "thead", "tfoot", "col", "cell-div", "row-div", "table-coll", "inline-table",
         "flex-colwrap", "inline-flex", "grid-areas", "griditem-area", "grid-minmax", "colspan-all", "columns-fill", "li-outside", "ol", "marker",
@@ -50,7 +51,8 @@ All == Core \cup Frag \cup
         "anchor", "link", "input", "textarea", "select", "br", "hr", "first-letter", "text-decor", "valign", "spacing", "percent", "neg-margin", "clone",
         "decor", "border-image", "line-clamp", "object-fit", "unknown-elem", "details", "sticky", "big-font", "zero-font", "lh-huge", "min-content",
         "fit-content", "clear", "fontface", "counter-style", "svg-img-ref", "media", "nested-rule", "attr-hints", "font-hints", "center", "base",
-        "meta-link", "style-attr", "osc-pages", "pages-text"}
+        "meta-link", "style-attr", "osc-pages", "pages-text", "full-table-coll", "full-table-sep", "full-list", "full-flex", "full-grid",
+        "full-columns", "long-text", "footnotes-many", "var-lasso", "floats-many", "abs-in-rel"}
 Bundles == CASE Set = "core" -> Core [] Set = "frag" -> Frag [] OTHER -> All
 
 Invalid == {"unknown-prop", "bad-value", "bad-at-rule", "bad-selector", "bad-important"}
